@@ -408,7 +408,12 @@ static void emit_function(raw_ostream& o, Function& F) {
         switch (bo->getOpcode()) {
           case Instruction::Add: e = a + "+" + b; break;
           case Instruction::Sub: e = a + "-" + b; break;
-          case Instruction::Mul: e = "(" + utype(w) + ")" + a + "*(" + utype(w) + ")" + b; break;
+          case Instruction::Mul:
+            if (w == 64) { // 64-bit products go through a macro: plain '*' by default, an uninterpreted function under -DVERIF_UF_MUL (constant operand second)
+              if (isa<ConstantInt>(bo->getOperand(0)) && !isa<ConstantInt>(bo->getOperand(1))) std::swap(a, b);
+              e = "VERIF_MUL64(" + a + ", " + b + ")";
+            } else e = "(" + utype(w) + ")" + a + "*(" + utype(w) + ")" + b;
+            break;
           case Instruction::UDiv: e = a + "/" + b; break;
           case Instruction::URem: e = a + "%" + b; break;
           case Instruction::SDiv: e = "(" + utype(w) + ")(" + sx(a, w) + "/" + sx(b, w) + ")"; break;
